@@ -9,7 +9,7 @@ from common import Check, coq_z, coq_list
 
 IMPLS = ["array", "linked", "cow", "conc-array", "conc-linked", "conc-cow"]
 CAPS = [0, 1, 5, 64, 65, 130, 2049, 5000]
-KIND = {"g": "Get", "a": "Append", "i": "Add", "s": "Set", "d": "Delete", "l": "Len", "c": "Cap",
+KIND = {"b": "Append", "n": "NewOf", "g": "Get", "a": "Append", "i": "Add", "s": "Set", "d": "Delete", "l": "Len", "c": "Cap",
         "r": "Range", "v": "AsSlice"}
 
 
@@ -18,7 +18,9 @@ def bare(o):
     return o[1:] if o.startswith("~") else o
 
 
-def kind_of(o):
+def kind_of(o, im=""):
+    if bare(o)[0] == "n" and im.endswith("array"):
+        return "Append"           # NewArrayListOf is documented to share its argument: the harness appends instead
     return KIND[bare(o)[0]]
 
 
@@ -151,7 +153,13 @@ class Gen:
             k = self.r.choice([0, 1, 1, 2, 3, 4, 7])
         xs = [self.val() for _ in range(k)]
         self.seq += xs
-        self.emit("a:" + ",".join(map(str, xs)))
+        first = not self.ops
+        if first and k and self.r.random() < 0.25:
+            self.emit("n:" + ",".join(map(str, xs)))          # New...Of(xs)
+        elif k and self.r.random() < 0.15:
+            self.emit("b:" + ",".join(map(str, xs)))          # the same slice also goes to a second list
+        else:
+            self.emit("a:" + ",".join(map(str, xs)))
 
     def add(self):
         i, x = self.index(len(self.seq)), self.val()
@@ -227,9 +235,13 @@ def drain_history(r, stats, size, tail_ops):
     # the empty list: every index is out of range, Add(0) is the only insertion
     for tok in r.sample(["g:0", "d:0", "s:0:5", "i:1:6", "g:-1", "r:0", "v", "l", "d:-1"], 5):
         g.emit(tok)
-    g.emit("i:0:%d" % g.val())
-    g.seq.insert(0, int(g.ops[-1].split(":")[2]))
-    g.append(r.choice([3, 40, 70]))
+    if r.random() < 0.5:
+        g.emit("i:0:%d" % g.val())
+        g.seq.insert(0, int(g.ops[-1].split(":")[2]))
+        g.append(r.choice([3, 40, 70]))
+    else:           # refill the empty list in one batch, usually larger than the capacity that is left
+        g.append(r.choice([1, 3, 40, 70, 130]))
+        g.append(r.choice([0, 2, 70]))
     for _ in range(tail_ops):
         g.random_op()
     if r.random() < 0.5:
@@ -242,7 +254,7 @@ def gen_histories(c):
     r = random.Random(c.seed * 1000003 + 4)
     full = c.tier == "thorough"
     st = c.cov.setdefault("distribution", {})
-    for k in ["idx_valid", "idx_invalid", "drains_to_empty", "hist_random", "hist_drain", "hist_regression", "hist_sparse",
+    for k in ["idx_valid", "idx_invalid", "drains_to_empty", "hist_random", "hist_drain", "hist_regression", "hist_sparse", "hist_argument",
               "ops_unobserved", "ops_observed_in_sparse", "bursts"] + \
              ["op_" + v for v in KIND.values()]:
         st[k] = 0
@@ -253,6 +265,20 @@ def gen_histories(c):
         hs.append((im, 65, ["a:1", "d:0", "a:2", "d:0"]))
         hs.append((im, 2049, ["a:1,2", "d:0", "d:0", "i:0:3"]))
         st["hist_regression"] += 3
+    # argument slices: batches into empty lists of small capacity, Set/Append afterwards, drained and refilled
+    for k in range(3000 if full else 90):
+        im = IMPLS[k % len(IMPLS)]
+        cap0 = [0, 1, 5, 0, 64, 2][(k // len(IMPLS)) % 6]
+        g = Gen(r, st)
+        for rounds in range(r.randint(1, 3)):
+            g.append(r.choice([1, 2, 3, 6, 7, 20, 70]))
+            for _ in range(r.randint(0, 4)):
+                r.choice([g.set, g.append, g.get, g.add, lambda: g.emit("v")])()
+            if r.random() < 0.7:
+                g.drain()
+        g.emit("v")
+        hs.append((im, cap0, g.ops))
+        st["hist_argument"] += 1
     n_random = 40000 if full else 560
     for k in range(n_random):
         im = IMPLS[k % len(IMPLS)] if r.random() < 0.8 else r.choice(IMPLS[:3])
@@ -320,14 +346,15 @@ def hist_line(h, caps=None):
 
 
 def split_impl(line):
-    """implementation line -> (compared entries, caps, fresh flags)"""
+    """implementation line -> (compared entries, caps, flags); flag "1" = fine, "0" = a slice returned by AsSlice
+    is aliased, "A" = an argument slice of Append / New...Of (or a second list fed from it) is aliased"""
     ent, caps, fresh = [], [], []
     for e in line.split(";") if line else []:
         p = e.split("|")
         if len(p) >= 5:
             ent.append("|".join(p[:3]))
             caps.append(p[3] if re.fullmatch(r"-?\d+", p[3]) else "-")
-            fresh.append(p[4])
+            fresh.append("A" if len(p) > 5 and p[5] != "1" else p[4])
         else:
             ent.append(e)          # "panic" or an observation that panicked
             caps.append("-")
@@ -389,7 +416,7 @@ def max_len_bound(h):
     n = 0
     for o in h[2]:
         o = bare(o)
-        if o[0] == "a":
+        if o[0] in "abn":
             n += o.count(",") + 1 if len(o) > 2 else 0
         elif o[0] == "i":
             n += 1
@@ -421,6 +448,8 @@ def classify(h, k, impl, ref, fresh):
     if x == "<missing>" or y == "<missing>" or "panic" in y.split("|"):
         return "stream"
     px, py = x.split("|"), y.split("|")
+    if (k < len(fresh) and fresh[k] == "A") or re.search(r"-[34]0000\d\d", x):
+        return "argument-aliased"      # the list shares memory with a slice the caller passed to Append / New...Of
     if (k < len(fresh) and fresh[k] != "1") or re.search(r"-[12]0000\d\d", x):
         return "asslice-aliased"       # a slice returned by AsSlice shares memory with the list
     if px[0] != py[0]:
@@ -477,11 +506,11 @@ def minimise(runner, h, budget=40):
     for _ in range(12):
         cands = []
         for j, o in enumerate(ops):
-            if bare(o).startswith("a:") and o.count(",") >= 1:
-                pre = "~" if o.startswith("~") else ""
+            if bare(o)[:2] in ("a:", "b:", "n:") and o.count(",") >= 1:
+                pre = ("~" if o.startswith("~") else "") + bare(o)[:2]
                 xs = bare(o)[2:].split(",")
                 for keep in (xs[:len(xs) // 2], xs[len(xs) // 2:]):
-                    cands.append(ops[:j] + [pre + "a:" + ",".join(keep)] + ops[j + 1:])
+                    cands.append(ops[:j] + [pre + ",".join(keep)] + ops[j + 1:])
         if not cands:
             break
         ks = failing([(im, cap0, o) for o in cands[:200]])
@@ -532,7 +561,7 @@ def op_to_coq(o):
     p = bare(o).split(":")
     if p[0] == "g":
         return "OpGet %s" % coq_z(p[1])
-    if p[0] == "a":
+    if p[0] in "abn":
         return "OpAppend %s" % zs(p[1] if len(p) > 1 else "")
     if p[0] == "i":
         return "OpAdd %s %s" % (coq_z(p[1]), coq_z(p[2]))
@@ -620,7 +649,7 @@ def crosscheck(c, hs, results):
 def nontrivial(h, impl):
     """a history is non-trivial when it has a failing call AND a successful structural change"""
     failed = any(e.startswith("e:") for e in impl)
-    changed = any(bare(o)[0] in "aid" and e.startswith(("ok", "v:")) for o, e in zip(h[2], impl))
+    changed = any(bare(o)[0] in "aidbn" and e.startswith(("ok", "v:")) for o, e in zip(h[2], impl))
     return failed and changed
 
 
@@ -685,7 +714,7 @@ def main(tier):
     # ---------------- search layer: every disagreement is a failing history; minimise it
     seen = set()
     for h, r, k in failing:
-        pre = "C04:%s:%s:%s" % (h[0], kind_of(h[2][k]), classify(h, k, r["impl"], r["model"], r["fresh"]))
+        pre = "C04:%s:%s:%s" % (h[0], kind_of(h[2][k], h[0]), classify(h, k, r["impl"], r["model"], r["fresh"]))
         if pre in seen or len(seen) >= 8:
             c.cov["violations_not_minimised"] = c.cov.get("violations_not_minimised", 0) + 1
             continue
@@ -695,7 +724,7 @@ def main(tier):
         km = first_diff(m, rr["impl"], rr["spec"], rr["fresh"])
         if km is None:          # implementation agrees with the abstract sequence but not with the model
             km2 = first_diff(m, rr["impl"], rr["model"], rr["fresh"])
-            c.report("C04:model:%s:%s" % (h[0], kind_of(h[2][k])),
+            c.report("C04:model:%s:%s" % (h[0], kind_of(h[2][k], h[0])),
                      "model and implementation disagree but the abstract sequence agrees with the implementation "
                      "(the model does not describe the code)",
                      {"kind": "correspondence", "history": hist_line(h, r["caps"])[:4000], "first_diverging_op": k,
@@ -703,8 +732,8 @@ def main(tier):
                       "minimised_first_diff": km2}, found_input=False)
             continue
         cls = classify(m, km, rr["impl"], rr["spec"], rr["fresh"])
-        kind = kind_of(m[2][km])
-        prevk = kind_of(m[2][km - 1]) if km > 0 else "-"
+        kind = kind_of(m[2][km], m[0])
+        prevk = kind_of(m[2][km - 1], m[0]) if km > 0 else "-"
         what = ("%s: after %s the implementation shows %r, the abstract sequence %r (op #%d %r of the minimised history)"
                 % (m[0], kind, rr["impl"][km] if km < len(rr["impl"]) else "<missing>",
                    rr["spec"][km] if km < len(rr["spec"]) else "<missing>", km, m[2][km]))
